@@ -3,6 +3,7 @@ package rules
 import (
 	"go/constant"
 	"go/token"
+	"go/types"
 	"sort"
 	"strings"
 
@@ -255,6 +256,11 @@ func findLevelFlag(fn *ssa.Function) *ssa.Phi {
 					if x.Op == token.EQL || x.Op == token.NEQ {
 						hasF = true
 					}
+				case *ssa.Call:
+					// ... or from a test kept in a small predicate
+					if b, isB := x.Type().Underlying().(*types.Basic); isB && b.Kind() == types.Bool {
+						hasF = true
+					}
 				}
 			}
 		}
@@ -458,11 +464,25 @@ func checkLevelFlagRec(c *km.Ctx, s *km.Sem, h *ssa.Function, flag *ssa.Phi, vis
 				// a computed operand: the flag is the truth of one test, which has to be a licence in itself (the
 				// facts of that test being true)
 				if cf := c.F.CondFacts(e, true); len(cf) > 0 {
-					k := c.F.NewConj()
-					for _, f := range cf {
-						k = k.With(f)
+					// judged together with what is known on the way to the assignment (the listed method the
+					// surrounding case selected): every such way has to carry a licence once the test is true
+					ways := c.F.OnEdge(p.Block().Preds[i], p.Block())
+					if len(ways) == 0 {
+						ways = km.DNF{c.F.NewConj()}
 					}
-					d, good := levelLicence(c, s, k, isListed, protoByVal, mainByVal, u2fBit)
+					var ds []string
+					good := true
+					for _, w := range ways {
+						k := w
+						for _, f := range cf {
+							k = k.With(f)
+						}
+						d1, g1 := levelLicence(c, s, k, isListed, protoByVal, mainByVal, u2fBit)
+						ds = appendUniq(ds, d1)
+						good = good && g1
+					}
+					sort.Strings(ds)
+					d := strings.Join(ds, " | ")
 					nTrue++
 					c.R.Add("R-C01-2", km.FuncName(h), "flag := test", posOf(c, p), "the test is a licence in itself: listed=='password', or listed==K ∧ level has bit K, or level has the U2F bit", clipS(d, 300), good)
 					continue
